@@ -58,7 +58,18 @@ CHECKS["C10"] = ("Coq model Options/Resolve.v of the order-sensitive derive-time
          "theorem: a rejection is never empty; the correspondence check compares model and code on accept/reject AND on every diagnostic's position and message, in order, and evaluates the order-free "
          "specification on the code's verdict - exhaustively for all ordered singles/pairs/(triples) of field options x every attribute split, all ordered pairs of container options, variant option subsets, body rules, six derives.",
          "Coq model + order-free executable specification evaluated on the implementation's verdict; per-run differential correspondence (exhaustive over option pairs/triples and attribute splits)")
-PARTIAL = {}
+RECV = ("Coq model Run/Recv.v of the parsers the derives generate (impl_of : ty -> implementer, by structural recursion over a universe of field types: library targets, wrappers, derived structs / newtypes / "
+        "unit structs / enums, any nesting): declarations, core loop, flatten hand-off, presence checks, the single early return, defaults, initialisers, post-transforms. ")
+CHECKS["C01"] = (RECV + "The property is the executable per-FIELD specification Spec/C01.v `expected` (comprehensions over the input: no pass, no seen flags, no accumulator), evaluated in Coq on the value the real derived "
+         "code returned for 150 compiled corpus receivers x receiver-directed mistake-free inputs; model and code are compared on every case. Theorems so far: initial state; the loop-invariant theorems are in progress (see DESIGN.md).",
+         "Coq model + per-field executable specification evaluated on the implementation's output; per-run differential correspondence against compiled receivers")
+CHECKS["C02"] = (RECV + "The property is Spec/C01.v: parsing fails iff `expected` is undefined, and then the error has exactly `mistakes` leaves (literal items + unclaimed names + repeats + absent required items + leaves of rejected "
+         "values, recursively through nested receivers, enum variants and maps), evaluated on the real output for inputs with 0-8 injected mistakes.",
+         "Coq model + counting specification evaluated on the implementation's output; per-run differential correspondence against compiled receivers")
+CHECKS["C07"] = (RECV + "Theorems: every integer conversion and the default dispatchers are total for any non-panicking hooks. Every corpus receiver is run under catch_unwind on mistake-free, faulty and degenerate inputs "
+         "(empty / malformed lists, literals, deep nesting, 44-digit integers), from_none and nested-literal position, and compared with the model; panic-site inventory shared with C06.",
+         "Coq model + totality lemmas; per-run differential correspondence under catch_unwind; panic-site inventory")
+PARTIAL = {"C07": " PARTIAL: stack exhaustion at extreme nesting and debug-build arithmetic overflow are run-time behaviour the model cannot exhibit; element-level entry points are covered by C08/C16's machinery."}
 def chk(pid):
     text, tech = CHECKS[pid]
     return {"property_id": pid, "quick_cmd": "./check %s --tier quick" % pid, "thorough_cmd": "./check %s --tier thorough" % pid,
